@@ -266,20 +266,20 @@ def handle (c : Case) : CaseOut := Id.run do
   | .staticSorted => if !isSorted inp then verdict := .skip "new_from_sorted_list on a list that is not sorted by source"
   | .dyn n => if !Adj.idsBelow n specEdges then verdict := .skip "DynamicGraph::new with an id >= node_count"
   | _ => pure ()
+  if isStatic && inp.isEmpty then verdict := .skip "static graph of an empty edge list: max id + 1 is unspecified (the code yields one node)"
   if inp.any fun e => e.src ≥ idBound || e.tgt ≥ idBound then verdict := .skip "ids beyond the harness bound"
   let mut σ : Adj.S := match kd with
     | .static | .staticSorted => Adj.ofList specEdges
     | .dyn n => Adj.init n specEdges
     | .dynDefault => Adj.init 0 []
-  let tagDefault := if kd == .dynDefault then "[D19-dyn-default] " else ""
   if verdict matches .ok then
     -- observation 0
     let dl := implD.getD 0 ""
     let exp := specD 0 σ none
     if dl == "" then
-      verdict := .fail s!"{tagDefault}construction: implementation produced no observation ({joinWith " | " (c.impl.toList.take 4)})"
+      verdict := .fail s!"construction: implementation produced no observation ({joinWith " | " (c.impl.toList.take 4)})"
     else if dl != exp then
-      verdict := .fail s!"{tagDefault}construction: observers differ from the edge multiset given: expected [{exp}] got [{dl}]"
+      verdict := .fail s!"construction: observers differ from the edge multiset given: expected [{exp}] got [{dl}]"
     else match (field (implF.getD 0 "") "sl").bind parseSlices with
       | some sl => if !slicesOk σ sl then verdict := .fail s!"construction: raw slices inconsistent with degrees / overlapping [{implF.getD 0 ""}]"
       | none => verdict := .fail "construction: no raw slice line"
@@ -307,9 +307,9 @@ def handle (c : Case) : CaseOut := Id.run do
     let dl := implD.getD j ""
     let exp := specD j σ rb
     if dl == "" then
-      verdict := .fail s!"{tagDefault}op {j}: implementation produced no observation ({joinWith " | " (c.impl.toList.drop (c.impl.size - 2))})"
+      verdict := .fail s!"op {j}: implementation produced no observation ({joinWith " | " (c.impl.toList.drop (c.impl.size - 2))})"
     else if dl != exp then
-      verdict := .fail s!"{tagDefault}op {j}: observers differ from the net effect of the history: expected [{exp}] got [{dl}]"
+      verdict := .fail s!"op {j}: observers differ from the net effect of the history: expected [{exp}] got [{dl}]"
     else match (field (implF.getD j "") "sl").bind parseSlices with
       | some sl => if !slicesOk σ sl then verdict := .fail s!"op {j}: raw slices inconsistent with degrees / overlapping [{implF.getD j ""}]"
       | none => verdict := .fail s!"op {j}: no raw slice line"
